@@ -1,3 +1,5 @@
 """Executable specification functions (the oracle).  One source: symbolically executed by pyvc
 for the VCs, and run natively for replay / spec validation."""
 from .bytesnum import *  # noqa
+from .base58 import b58val, alpha  # noqa
+from . import base58  # noqa
